@@ -40,7 +40,7 @@ def plan(tier, seed):
         specs.append({"kind": "soup_rand", "n": 2500 if tier == "quick" else 20000})
     ng = 8 if tier == "quick" else 32
     for i in range(ng):
-        specs.append({"kind": "grammar", "n": 60 if tier == "quick" else 400})
+        specs.append({"kind": "grammar", "n": 150 if tier == "quick" else 500})
     for i in range(4 if tier == "quick" else 12):
         specs.append({"kind": "noise", "n": 3000 if tier == "quick" else 25000})
     specs.append({"kind": "nest"})
@@ -149,8 +149,12 @@ def run_shard(spec, ctx):
         g = syntax.SyntaxGen(r, max_depth=r.choice([3, 4, 5]))
         for _ in range(spec["n"]):
             toks = g.program()
-            if len(toks) > 120:
-                toks = toks[:120]
+            for _try in range(8):
+                if len(toks) <= 140:
+                    break
+                toks = g.program(1)
+            else:
+                toks = g.expr(g.max_depth - 1)
             s = check_text(ctx, " ".join(toks))
             ctx.count("grammar_programs")
             if s and s[0] == "program":
@@ -243,8 +247,8 @@ def finalize(merged, tier):
                      {"batch_index": idx}))
     if c.get("determinism_checks", 0) == 0:
         reasons.append("no same-process determinism comparison was performed")
-    if c.get("grammar_programs_accepted", 0) * 2 < c.get("grammar_programs", 1):
-        reasons.append("fewer than half of the grammar-derived programs were accepted "
+    if c.get("grammar_programs_accepted", 0) * 5 < 2 * c.get("grammar_programs", 1):
+        reasons.append("fewer than 40% of the grammar-derived programs were accepted "
                        "(generator drifted from the grammar)")
     extra["step_budget"] = "20000 + 3000*len(text)"
     return extra, reasons, viol
